@@ -302,6 +302,7 @@ func specC14() *propertySpec {
 			{"C14-R5", "atomic-updates: append to cleanups, pop in cleanup and the ctx re-check/store in Context each happen inside one write-locked region; Context returns only the published context (or a cancelled one while cleaning)", func(r *Run) { ruleC14R5(r); ruleC10R5(r) }},
 			{"C14-R6", "no-callback-under-lock: no dynamic call of a user-supplied function and no call re-acquiring T.mu while T.mu is held", ruleC14R6},
 			{"C14-R7", "lock-balance: every function that acquires T.mu releases it on every return path (explicitly, or by a deferred unlock of the same mode): a lock left held blocks every later Log/Failed/Cleanup call", ruleC14R7},
+			{"C14-R8", "late-signals-reach-the-verdict: a non-fatal failure signalled from another goroutine up to the end of the cleanup phase (goroutines released by context cancellation, joined by a cleanup) is seen: in every bracket the flag is consulted after the cleanups (shared with C02-R2)", ruleC02R2},
 		},
 	}
 }
@@ -595,8 +596,9 @@ func ruleC14R5(r *Run) {
 				"read-modify-write of T."+fa.Field+" in "+p.hostName(fa.Fn)+" is not atomic: the stored value depends on "+p.expr(ld)+" read at "+p.pos(ld.Pos())+" outside the critical section of the store (a concurrent Cleanup/Context call in between is lost)")
 		}
 	}
-	r.Floor("read-modify-write dependencies on guarded T fields", nRMW, 2)
+	r.Floor("read-modify-write dependencies on guarded T fields", nRMW, 1)
 	ruleContextStoreRecheck(r)
+	ruleGuardedSliceEscape(r)
 }
 
 // noUnlockBetween: no Unlock/RUnlock call is reachable after a and before b (a dominates b assumed).
@@ -830,4 +832,108 @@ func ruleC14R7(r *Run) {
 		r.Check(name+"#lock-balance", fn.Pos(), okAll, "every return releases the locks it took", name+" "+detail+": the next operation on this T blocks forever")
 	}
 	r.Floor("functions acquiring a T mutex", n, 6)
+}
+
+// ruleGuardedSliceEscape: a slice loaded from a guarded field of T may be read after the lock is released only if the
+// field gave up the backing array in the same critical section (set to nil or to a fresh slice). Otherwise the
+// unlocked reader and a concurrent writer that appends through the field share one array: no data race is
+// reported (every field access is locked), but entries are overwritten (lost or run twice).
+func ruleGuardedSliceEscape(r *Run) {
+	p := r.P
+	n := 0
+	lsCache := map[*ssa.Function]map[ssa.Instruction]lockState{}
+	for _, fa := range p.fieldAccesses("T") {
+		if fa.Kind != "read" || fa.FA == nil {
+			continue
+		}
+		guarded := false
+		for _, g := range guardedT {
+			if g == fa.Field {
+				guarded = true
+			}
+		}
+		ld, ok := fa.Instr.(*ssa.UnOp)
+		if !guarded || !ok {
+			continue
+		}
+		if _, isSlice := ld.Type().Underlying().(*types.Slice); !isSlice {
+			continue
+		}
+		n++
+		host := p.host(fa.Fn)
+		ls, ok := lsCache[host]
+		if !ok {
+			ls = p.lockSets(host)
+			lsCache[host] = ls
+		}
+		lock := "&" + strings.TrimPrefix(p.expr(fa.Base), "&") + ".mu"
+		outside := ""
+		seen := map[ssa.Value]bool{}
+		var follow func(v ssa.Value, d int)
+		follow = func(v ssa.Value, d int) {
+			if v == nil || seen[v] || d > 6 || v.Referrers() == nil || outside != "" {
+				return
+			}
+			seen[v] = true
+			for _, ref := range *v.Referrers() {
+				held := len(ls[ref]) > 0 && ls[ref][lock] != 0
+				switch x := ref.(type) {
+				case *ssa.DebugRef:
+				case *ssa.IndexAddr, *ssa.Range, *ssa.Lookup, *ssa.Index:
+					if !held {
+						outside = "read at " + p.pos(ref.Pos())
+					}
+				case *ssa.Slice:
+					if !held {
+						outside = "resliced at " + p.pos(ref.Pos())
+					} else {
+						follow(x, d+1)
+					}
+				case *ssa.Phi:
+					follow(x, d+1)
+				case *ssa.Store:
+					if x.Val != v {
+						continue
+					}
+					if al, ok := x.Addr.(*ssa.Alloc); ok && al.Referrers() != nil {
+						for _, r2 := range *al.Referrers() {
+							if u, ok := r2.(*ssa.UnOp); ok {
+								follow(u, d+1)
+							}
+						}
+					}
+				case ssa.CallInstruction:
+					key := p.calleeKey(x.Common())
+					if key == "builtin:len" || key == "builtin:cap" || key == "builtin:append" || key == "builtin:copy" || p.inRapidKey(x) || strings.HasPrefix(key, "dyn:") {
+						if !held {
+							outside = "used by " + key + " at " + p.pos(ref.Pos())
+						}
+					}
+				}
+			}
+		}
+		follow(ld, 0)
+		if outside == "" {
+			r.OK(p.hostName(fa.Fn)+"#slice-stays-locked."+fa.Field, ld.Pos(), "the slice loaded from T."+fa.Field+" is only used while the lock is held")
+			continue
+		}
+		// ownership transfer in the same critical section
+		transferred := false
+		for _, fb := range p.fieldAccesses("T") {
+			if fb.Field != fa.Field || fb.Kind != "write" || p.host(fb.Fn) != host {
+				continue
+			}
+			st := fb.Instr.(*ssa.Store)
+			fresh := isNilConst(p.resolve(st.Val))
+			if _, isMake := p.resolve(st.Val).(*ssa.MakeSlice); isMake {
+				fresh = true
+			}
+			if fresh && ls[st][lock] == 'W' && ls[ld][lock] != 0 && noUnlockBetween(p, ld, st) {
+				transferred = true
+			}
+		}
+		r.Check(p.hostName(fa.Fn)+"#slice-escapes-lock."+fa.Field, ld.Pos(), transferred, "the slice is read after unlocking, but the field was set to nil / a fresh slice in the same critical section",
+			"the slice loaded from T."+fa.Field+" is "+outside+" after t.mu was released while T."+fa.Field+" still refers to the same backing array: a concurrent Cleanup appends into it and overwrites entries that are still pending (a cleanup is lost, another runs twice)")
+	}
+	r.Floor("loads of guarded slice fields of T", n, 3)
 }
